@@ -40,6 +40,9 @@ pub enum Scenario {
     /// `n` tasks wait on a Notify; the trigger message is consumed by a processing element of the
     /// module, which notifies them (the module's handler never runs in that event)
     Captured { n: usize },
+    /// `n` tasks each await `timeout(timeout_ns, oneshot)`; a sibling task spawned in the same event answers, so the
+    /// timeout's timer is armed and disarmed within one instant; the task then sleeps `sleep_ns`
+    Answered { n: usize, timeout_ns: u64, sleep_ns: u64 },
 }
 
 #[derive(Debug, Clone, Serialize, Deserialize, PartialEq)]
@@ -74,6 +77,7 @@ impl Trigger {
             Scenario::Chain { depth, .. } => *depth,
             Scenario::Drain { m } => 1 + m / 128,
             Scenario::Captured { n } => *n,
+            Scenario::Answered { n, .. } => 3 * n,
         }
     }
 }
@@ -168,7 +172,7 @@ impl Stormy {
         let (local, mixed) = (t.local, t.mixed);
         let local_of = move |k: usize| if mixed { k % 2 == 1 } else { local };
         let armed = match &t.scenario {
-            Scenario::Burst { .. } => Armed::None,
+            Scenario::Burst { .. } | Scenario::Answered { .. } => Armed::None,
             Scenario::Notify { n } => {
                 let notify = Arc::new(Notify::new());
                 for k in 0..*n {
@@ -326,6 +330,25 @@ impl Stormy {
                     self.spawned += 1;
                 }
             }
+            Scenario::Answered { n, timeout_ns, sleep_ns } => {
+                for k in 0..*n {
+                    let (timeout_ns, sleep_ns) = (*timeout_ns, *sleep_ns);
+                    let (tx, rx) = oneshot::channel::<()>();
+                    let h = spawn_any(t.local, async move {
+                        let r = des::time::timeout(Duration::from_nanos(timeout_ns), rx).await;
+                        // answered within the instant (an Elapsed would show as a late observation)
+                        log(m, ti, k, if r.is_ok() { at } else { u64::MAX });
+                        sleep(Duration::from_nanos(sleep_ns)).await;
+                        log(m, ti, k, at + sleep_ns);
+                        done();
+                    });
+                    current().join(h);
+                    self.spawned += 1;
+                    let _ = spawn_any(t.local, async move {
+                        let _ = tx.send(());
+                    });
+                }
+            }
             _ => match std::mem::replace(&mut self.armed[ti], Armed::None) {
                 Armed::Notify(n) => n.notify_waiters(),
                 Armed::ChainOneshot(tx) => {
@@ -421,7 +444,7 @@ fn expected_tasks(case: &Case) -> u64 {
         .iter()
         .flatten()
         .map(|t| match &t.scenario {
-            Scenario::Burst { n, .. } | Scenario::Notify { n } | Scenario::Captured { n } => *n as u64,
+            Scenario::Burst { n, .. } | Scenario::Notify { n } | Scenario::Captured { n } | Scenario::Answered { n, .. } => *n as u64,
             Scenario::Chain { depth, .. } => *depth as u64,
             Scenario::Drain { .. } => 1,
         })
@@ -490,8 +513,14 @@ pub fn gen_trigger(rng: &mut Rng, time_ns: u64, local: bool, big: bool) -> Trigg
             s.min(cap)
         }
     };
-    let scenario = match rng.below(9) {
+    let scenario = match rng.below(10) {
         8 => Scenario::Captured { n: size(rng) },
+        9 => {
+            // the disarmed timer's deadline lies before, at or after the deadline of the sleep that follows
+            let timeout_ns = *rng.pick(&[1_000_000u64, SEC, 7 * SEC]);
+            let sleep_ns = *rng.pick(&[1_000_000u64, SEC, 3 * SEC, 10 * SEC]);
+            Scenario::Answered { n: 1 + rng.usize_below(8), timeout_ns, sleep_ns }
+        }
         0..=2 => {
             let n = size(rng);
             let yields = match rng.below(4) {
@@ -546,7 +575,7 @@ pub fn gen_case(rng: &mut Rng, known_shape: bool) -> Case {
         let mut t = gen_trigger(rng, at, local, false);
         let completes_in_instant = match &t.scenario {
             Scenario::Burst { sleep_ns, .. } => *sleep_ns == 0,
-            Scenario::Captured { .. } => false,
+            Scenario::Captured { .. } | Scenario::Answered { .. } => false,
             _ => true,
         };
         if completes_in_instant && t.time_ns > 0 {
@@ -605,6 +634,7 @@ pub fn cmd(args: &Args) -> Report {
                 Scenario::Chain { .. } => "scenarios_wake_chain",
                 Scenario::Drain { .. } => "scenarios_channel_drain",
                 Scenario::Captured { .. } => "scenarios_message_consumed_by_processing_element",
+                Scenario::Answered { .. } => "scenarios_timeout_answered_within_the_instant_then_sleep",
             };
             rep.count(key, 1);
             if t.local {
